@@ -428,6 +428,8 @@ fn handle_discover(
                         .options
                         .clone()
                         .set_option(&dhcppkt::OPTION_SERVERID, &req.serverip)
+                        /* RFC2131 Table 3: the IP address lease time is a MUST in a DHCPOFFER */
+                        .set_option(&dhcppkt::OPTION_LEASETIME, &(lease.expire.as_secs() as u32))
                         .to_options(),
                 })
             }
